@@ -221,7 +221,7 @@ CHECKS["C09"] = {
                     "arm64 code cannot be executed here: its model is explored but not replayed against concrete traces",
                     "micro-architectural timing below the instruction/address level is out of scope"],
     "parts": [
-        {"name": "asm-taint", "cmd": ["python3", "{verif}/tools/asmtaint.py"]},
+        {"name": "asm-taint", "cmd": ["env", "VX_ASMTAINT_SKIP=static-write", "python3", "{verif}/tools/asmtaint.py"]},
         {"name": "asm-trace", "cmd": ["python3", "{verif}/tools/asmtrace.py"]},
         {"name": "asm-dispatch", "pkg": "sm4", "run": "TestVX_C09_Dispatch", "public_files": SM4P + ["sm4/C09_pub_test.go"]},
     ],
@@ -241,6 +241,7 @@ CHECKS["C17"] = {
         {"name": "sched-sm4-armglue", "variant": "schedarm", "pkg": "sm4", "run": "TestVX_C17_SM4", "public_files": C17F, "shards": 6, "env": {"VX_PART": "sched-sm4-armglue"}},
         {"name": "sched-sm4-generic", "variant": "schedgen", "pkg": "sm4", "run": "TestVX_C17_SM4", "public_files": C17F, "shards": 6, "env": {"VX_PART": "sched-sm4-generic"}},
         {"name": "sched-sm2", "variant": "sched", "pkg": "sm2", "run": "TestVX_C17_SM2", "public_files": SM2P + ["sm2/C17_pub_test.go"], "shards": 2},
+        {"name": "asm-static-state", "cmd": ["env", "VX_ASMTAINT_ONLY=static-write", "VX_ASMTAINT_PROP=C17", "VX_ASMTAINT_PART=asm-static-state", "python3", "{verif}/tools/asmtaint.py"]},
         {"name": "race-sm4", "variant": "sched", "race": True, "pkg": "sm4", "run": "TestVX_C17_SM4_Race", "public_files": C17F, "gomaxprocs": 16},
         {"name": "race-sm2", "variant": "sched", "race": True, "pkg": "sm2", "run": "TestVX_C17_SM2_Race", "public_files": SM2P + ["sm2/C17_pub_test.go"], "gomaxprocs": 16},
     ],
